@@ -30,6 +30,7 @@ func init() {
 		"Not decided: that later hits see renewed TTLs (cache library + time), 64-bit hash collisions of the in-flight key.",
 		Rule{ID: "R19a", Doc: "reserve/done pairing", Floor: 8, Run: r19a},
 		Rule{ID: "R19b", Doc: "the hit is not delayed", Floor: 3, Run: r19b},
+		Rule{ID: "R19c", Doc: "refresh outcome handling", Floor: 3, Run: r19c},
 		Rule{ID: "R19d", Doc: "prefetch window", Floor: 1, Run: r19d},
 		Rule{ID: "R19e", Doc: "in-flight key components", Floor: 4, Run: r19e},
 		Rule{ID: "R08a", Doc: "stores only on success (shared with C08)", Floor: 4, Run: r08a},
@@ -525,6 +526,50 @@ func r19b(c *core.Ctx) {
 		k, _ := core.ConstInt(a[1])
 		c.Check(core.Expr(a[0]) == "r.ctx" && k == 6_000_000_000, "refresh-context", call.Pos(), dp, "the refresh runs under context.WithTimeout(r.ctx, 6 s): bound by the router's life, not by the request", core.Expr(a[0])+", "+fmt.Sprint(k))
 	}
+}
+
+// r19c: a refresh stores exactly the forwarded answer, only on the success edge; a failed refresh touches the cache
+// in no way (the still-valid entry keeps being served until it expires).
+func r19c(c *core.Ctx) {
+	dp := c.Anchor("app/router", "(*router).doPrefetch")
+	fw := c.Anchor("app/router", "(*router).forward")
+	if dp == nil || fw == nil {
+		return
+	}
+	fcalls := callsOfFn(dp, fw)
+	c.Check(len(fcalls) == 1, "one-forward", dp.Pos(), dp, "doPrefetch forwards the question once", fmt.Sprint(len(fcalls)))
+	if len(fcalls) != 1 {
+		return
+	}
+	fc := fcalls[0].(*ssa.Call)
+	resp, errV := extractOf(fc, 0), extractOf(fc, 1)
+	c.Check(errV != nil, "forward-error-examined", fc.Pos(), dp, "the error of forward is examined", "")
+	if errV == nil {
+		return
+	}
+	nStore := 0
+	core.EachInstr(dp, func(b *ssa.BasicBlock, _ int, in ssa.Instruction) {
+		ci, ok := in.(ssa.CallInstruction)
+		if !ok {
+			return
+		}
+		n := core.CallName(ci)
+		isCacheOp := strings.Contains(n, "cacheCtl).") || strings.Contains(n, "internal/cache.")
+		if !isCacheOp {
+			return
+		}
+		st := core.NilAt(errV, b)
+		if strings.HasSuffix(n, "cacheCtl).Store") {
+			nStore++
+			c.Check(st == core.IsNil, fmt.Sprintf("store-on-success#%d", nStore), ci.Pos(), dp, "the refreshed answer is stored only on the `err == nil` edge of forward", nilStateName(st))
+			args := core.CallArgs(ci)
+			c.Check(resp != nil && core.Strip(args[len(args)-1]) == core.Strip(resp), fmt.Sprintf("stores-the-forwarded-answer#%d", nStore), ci.Pos(), dp, "what is stored is the message forward returned", core.Expr(args[len(args)-1]))
+			c.Check(core.Expr(args[1]) == "q", fmt.Sprintf("stored-under-the-refreshed-question#%d", nStore), ci.Pos(), dp, "…under the question that was refreshed", core.Expr(args[1]))
+			return
+		}
+		c.Check(st == core.IsNil, "no-cache-op-on-failure:"+core.ModName(n), ci.Pos(), dp, "a failed refresh performs no cache operation (nothing is deleted or overwritten)", nilStateName(st))
+	})
+	c.Check(nStore >= 1, "refresh-stores", dp.Pos(), dp, "a successful refresh stores its answer", fmt.Sprint(nStore))
 }
 
 func r19d(c *core.Ctx) {
